@@ -50,6 +50,8 @@ type c08Obs struct {
 	dupTried      bool // a second registration with this observation's token was attempted
 	regObs        bool // registration answer carried an Observe option
 	regSeen       bool // the peer saw the registration
+	regSeenTick   int
+	answeredLate  bool
 	regAnswered   bool
 	registered    bool // Observe() returned without error
 	failed        bool
@@ -74,16 +76,24 @@ func c08Run(e *Env) {
 	bw := t.Chance(1, 3)
 	nObs := 1 + t.Choose(3)
 	shortTokens := t.Chance(1, 3)
+	// request slots: switched off, or the defaults of the configuration (one request at a time, NSTART 1)
+	slots, nstart := int64(0), uint32(16)
+	if t.Chance(1, 3) {
+		slots, nstart = 1, 1
+	}
 	var w *CWorld
+	maxRetx, ticksTotal := 0, 0
 	if IsDatagram(tr) {
 		cfg := SimUDPConfig(int32(t.Choose(65536)))
-		cfg.TransmissionNStart = 16
+		cfg.TransmissionNStart = nstart
+		cfg.LimitClientParallelRequests, cfg.LimitClientEndpointParallelRequests = slots, slots
+		maxRetx = int(cfg.TransmissionMaxRetransmit)
 		cfg.BlockwiseEnable = bw
 		w = NewCWorld(e, CWorldCfg{Transport: tr, UDP: cfg})
 	} else {
 		w = NewCWorld(e, CWorldCfg{Transport: tr, TCPOpts: []tcp.Option{
 			options.WithBlockwise(bw, blockwise.SZX1024, 3*time.Second),
-			options.WithLimitClientParallelRequest(0), options.WithLimitClientEndpointParallelRequest(0), options.WithCloseSocket(),
+			options.WithLimitClientParallelRequest(slots), options.WithLimitClientEndpointParallelRequest(slots), options.WithCloseSocket(),
 		}})
 	}
 	if w == nil {
@@ -145,6 +155,7 @@ func c08Run(e *Env) {
 		}
 		if hasObs && ov == 0 && !o.regSeen {
 			o.regSeen = true
+			o.regSeenTick = ticksTotal
 			o.token = m.Token
 			o.mid = m.MID
 			// registration answer
@@ -206,6 +217,9 @@ func c08Run(e *Env) {
 			// the answer to the registration is handed to the callback whatever its code
 			if !o.regAnswered {
 				o.regAnswered = true
+				// an answer that arrives after the attempts of a confirmable registration were exhausted (at least
+				// MAX_RETRANSMIT+1 housekeeping ticks since it went out) obliges to nothing (C06)
+				o.answeredLate = IsDatagram(tr) && ticksTotal-o.regSeenTick > maxRetx
 				if o.call != nil && !o.call.Done() {
 					o.want = append(o.want, note)
 					if o.regObs && o.regCode < 0x80 {
@@ -313,7 +327,7 @@ func c08Run(e *Env) {
 					}
 				} else {
 					o.failed = true
-					if o.regAnswered && ok && !o.call.Cancelled {
+					if o.regAnswered && ok && !o.call.Cancelled && !o.answeredLate {
 						e.Violate("C08.R3", "registration-failed-on-success-code", "obs%d: Observe failed (%s) although the registration was answered with %d.%02d", o.idx, trimErr(err), o.regCode>>5, o.regCode&31)
 					}
 				}
@@ -421,9 +435,10 @@ func c08Run(e *Env) {
 					e.CancelCall(o.call)
 				}})
 			}
-			if o.registered && !o.cancelStarted && !o.dupTried && o.token != nil && o.regObs && (o.regCode == 0x45 || o.regCode == 0x43) {
+			if slots == 0 && o.registered && !o.cancelStarted && !o.dupTried && o.token != nil && o.regObs && (o.regCode == 0x45 || o.regCode == 0x43) {
 				// an application error that must stay harmless: a second registration with the token of a live
-				// observation. It is refused, and the observation that owns the token goes on as before.
+				// observation. It is refused, and the observation that owns the token goes on as before. (Not with
+				// request slots: a registration that first waits for its turn may find the token free by then.)
 				evs = append(evs, Event{Label: "register-with-token-in-use", W: 1, Do: func() {
 					o.dupTried = true
 					e.Fault("observe.tokenInUse")
@@ -490,6 +505,7 @@ func c08Run(e *Env) {
 			e.Sleep(dt)
 			if t.Chance(1, 3) {
 				e.Logf("tick")
+				ticksTotal++
 				e.Fault("tick")
 				w.Tick(time.Now())
 			}
